@@ -414,14 +414,15 @@ def renameIn (a b : String) (r : Rec) : Rec :=
   | .L | .C => { r with fields := modAt (modAt r.fields 0 sub) 2 sub }
   | .E | .G => { r with fields := modAt (modAt r.fields 1 (renameOriented a b)) 2 (renameOriented a b) }
   | .F => { r with fields := modAt r.fields 0 sub }
-  | .P => { r with fields := modAt r.fields 1 (fun s => ",".intercalate ((splitStr ',' s).map (renameOriented a b))) }
-  | .O => { r with fields := modAt r.fields 1 (fun s => " ".intercalate ((splitStr ' ' s).map (renameOriented a b))) }
-  | .U => { r with fields := modAt r.fields 1 (fun s => " ".intercalate ((splitStr ' ' s).map sub)) }
+  | .P => { r with fields := modAt r.fields 1 (fun s => joinStr ',' ((splitStr ',' s).map (renameOriented a b))) }
+  | .O => { r with fields := modAt r.fields 1 (fun s => joinStr ' ' ((splitStr ' ' s).map (renameOriented a b))) }
+  | .U => { r with fields := modAt r.fields 1 (fun s => joinStr ' ' ((splitStr ' ' s).map sub)) }
   | _ => r
 
 def setName (b : String) (r : Rec) : Rec :=
   match r.rt with
-  | .L | .C => { r with fields := r.fields.map (fun t => if isIdTag t then "ID:Z:" ++ b else t) }
+  | .L | .C => { r with fields := r.fields.take (npos r.rt) ++
+      (r.fields.drop (npos r.rt)).map (fun t => if isIdTag t then "ID:Z:" ++ b else t) }
   | _ => { r with fields := b :: r.fields.drop 1 }
 
 /-- what a rename does to the other records: the identifier is substituted where it is mentioned -/
@@ -431,7 +432,8 @@ def renameOther (isSeg : Bool) (a b : String) (r : Rec) : Rec :=
     | .O | .U => renameIn a b r
     | _ => r
 
-/-- `line.name = b` for the connected line currently called `a` -/
+/-- `line.name = b` for the connected line currently called `a`.  References are object pointers in
+    gfapy, so every mention of the renamed line (its own fields included) shows the new identifier. -/
 def rename (st : St) (a b : String) : Except Err St :=
   match st.lines.findIdx? (fun q => q.name = some a) with
   | none => .error .notFound
@@ -441,7 +443,7 @@ def rename (st : St) (a b : String) : Except Err St :=
     else if hasName st b then .error .notUnique
     else
       .ok { st with lines := st.lines.zipIdx.map (fun p =>
-        if p.2 = i then setName b p.1
+        if p.2 = i then setName b (renameOther (decide ((st.lines.getD i default).rt = .S)) a b p.1)
         else renameOther (decide ((st.lines.getD i default).rt = .S)) a b p.1) }
 
 end Gfa.G
